@@ -30,6 +30,7 @@ class Effects:
         self.direct = {}       # q -> [(root, event, description)]
         self.mut = {}          # q -> {param name: (description, path)}
         self.calls = {}        # q -> [(event, [callee qualnames], call term, self term)]
+        self.refs = {}         # q -> functions referenced as values in call arguments
         self.method_impls = {}
         for cq, ci in program.classes.items():
             for m, fq in ci.methods.items():
@@ -180,6 +181,10 @@ class Effects:
                 kw = dict(c[3])
                 if is_const(kw.get("inplace"), True) and head(f) == "attr":
                     hit(f[1], e, f"{show(f[1], 40)}.{f[2]}(inplace=True)")
+                if "out" in kw and not is_const(kw["out"], None):
+                    hit(kw["out"], e, f"{show(f, 40)}(..., out={show(kw['out'], 30)})")
+                if is_const(kw.get("copy"), False) and head(f) == "attr" and f[2] in ("astype", "to_numpy", "reindex"):
+                    pass
         return out
 
     @staticmethod
@@ -209,6 +214,15 @@ class Effects:
                     self.mut[q].setdefault(root[1], (what, [(q, e.line)]))
             s = self.A.summary(q)
             self.calls[q] = [(e, self.callees(q, e["term"])) for e in s.events_of("call")]
+            # functions passed as values (map(f, ...), Pool.map(f, ...), key=f, apply(f)) are reachable too
+            refs = set()
+            for e in s.events_of("call"):
+                c = strip(e["term"])
+                for a in list(c[2]) + [v for _, v in c[3]]:
+                    for x in walk(a):
+                        if x[0] == "glob" and x[1] in self.P.functions:
+                            refs.add(x[1])
+            self.refs[q] = refs
         # interprocedural fixpoint
         for _ in range(12):
             changed = False
@@ -258,3 +272,79 @@ class Effects:
                 elif head(f) == "attr" and f[2] == "sample":
                     out.append((q, e, ".sample"))
         return out
+
+
+    # ---- convenience for property modules
+    def reachable(self, roots):
+        """Functions reachable from ``roots`` through resolved calls (incl. dynamic dispatch by method name)."""
+        seen, todo = set(), list(roots)
+        while todo:
+            q = todo.pop()
+            if q in seen or q not in self.calls:
+                continue
+            seen.add(q)
+            for e, cands in self.calls[q]:
+                for callee, _ in cands:
+                    if callee and callee not in seen:
+                        todo.append(callee)
+            todo.extend(x for x in self.refs.get(q, ()) if x not in seen)
+        return seen
+
+    def global_writes(self, funcs):
+        """[(function, root, event, description)] of stores to / in-place updates of module-level state."""
+        out = []
+        for q in sorted(funcs):
+            for root, e, what in self.direct.get(q, []):
+                if root[0] == "glob":
+                    out.append((q, root, e, what))
+        return out
+
+
+_EFFECTS_CACHE = {}
+
+
+def effects_for(r):
+    key = id(r.P)
+    if key not in _EFFECTS_CACHE:
+        _EFFECTS_CACHE.clear()
+        _EFFECTS_CACHE[key] = Effects(r.P, r.A)
+    return _EFFECTS_CACHE[key]
+
+
+def check_pure_params(r, rule, qualnames, skip=("self", "ax", "axes", "fig_or_axes", "legend")):
+    """Obligation per (function, parameter): the caller's object is never written to (directly, through an alias or through a callee)."""
+    from .rules import where_of
+    E = effects_for(r)
+    n = 0
+    for q in qualnames:
+        if q not in r.P.functions:
+            raise AnalysisBroken(f"anchor function {q} not found in the current tree")
+        s = r.A.summary(q)
+        r.rep.analysed(q)
+        fn = r.P.functions[q]
+        for name, default, kind in s.params:
+            if kind in ("var", "kw") or name in skip:
+                continue
+            n += 1
+            hit = E.mut[q].get(name)
+            if hit is None:
+                r.rep.ob(rule, q, True, f"argument '{name}' is left untouched (later calls on the same object see the same data)", where_of(r.P, fn, fn.node), key=f"pure {name}")
+            else:
+                what, path = hit
+                r.rep.ob(rule, q, False, f"argument '{name}' is modified in place, so a later call on the same object computes from altered data", f"{r.P.modules[r.P.functions[path[-1][0]].module].relpath}:{path[-1][1]}",
+                         expected="no write through any alias of the argument", found=what + "  via " + " -> ".join(f"{p.rsplit('.', 1)[1]}:{l}" for p, l in path), key=f"pure {name}")
+    return n
+
+
+def check_no_hidden_state(r, rule, roots, allowed=(("pyrepseq.nn._to_triplets", "pyrepseq.nn._cal_params"),)):
+    """No function reachable from ``roots`` writes module-level state (other than the audited kdtree parameter block)."""
+    from .rules import where_of
+    E = effects_for(r)
+    reach = E.reachable(roots)
+    bad = [(q, root, e, w) for q, root, e, w in E.global_writes(reach) if (q, root[1]) not in allowed]
+    if not bad:
+        r.rep.ob(rule, roots[0], True, f"no function reachable from the entry points keeps state between calls ({len(reach)} functions)", "", key="no hidden state")
+    for q, root, e, w in bad:
+        r.rep.ob(rule, q, False, "module-level state written during a call survives into later calls (results would depend on call history)", where_of(r.P, r.P.functions[q], e.node),
+                 expected="no store to module-level objects", found=f"{w}  [{root[1]}]", key=f"hidden state {root[1]}")
+    return len(reach)
